@@ -90,6 +90,8 @@ pub fn real_parse(kind: &str, text: &str) -> Res {
     let t = text.to_string();
     let is_op = kind == "op";
     let r = catch(move || {
+        // positions carry the thread's "current file" index; other streams of the same process may have moved it
+        nitrogql_ast::set_current_file_of_pos(0);
         if is_op {
             match parse_operation_document(&t) {
                 Ok(d) => Ok(from_real_doc_ext(&d).to_sexp()),
